@@ -473,8 +473,8 @@ var c20Types = []string{"str", "arr", "int", "float", "bool"}
 func c20Recv(rt *rapid.T, typ string) V {
 	switch typ {
 	case "str":
-		// (strings holding markup or entity text are passed as variables only: a literal would be escaped first)
-		return refint.StrV(rapid.SampledFrom([]string{"", "abc", "héllo", "x y", "a &lt; b", "Tom &amp; Jerry", "&copy; &#65;&#x42; &amp", "<b>&</b>", "q\"uo'te"}).Draw(rt, "srecv"))
+		// (strings holding markup or entity text are passed as variables only: a literal would be escaped first; quotes stay as written, so strings with quotes are also written as literals - with a backslash where the quote is the delimiter)
+		return refint.StrV(rapid.SampledFrom([]string{"", "abc", "héllo", "x y", "a &lt; b", "Tom &amp; Jerry", "&copy; &#65;&#x42; &amp", "<b>&</b>", "q\"uo'te", "it's", "say \"hi\"", "'", "l'été"}).Draw(rt, "srecv"))
 	case "arr":
 		return rapid.SampledFrom([]V{refint.ArrV(nil), refint.ArrV([]V{refint.IntV(1), refint.StrV("a")}), refint.ArrV([]V{refint.ArrV([]V{refint.IntV(2)}), refint.ObjV(map[string]V{"k": refint.NilV()})})}).Draw(rt, "arecv")
 	case "int":
@@ -505,7 +505,7 @@ func c20Arg(rt *rapid.T) V {
 		return rapid.SampledFrom(c20BigArgs).Draw(rt, "big")
 	}
 	return rapid.SampledFrom([]V{
-		refint.IntV(5), refint.IntV(-1), refint.FloatV(1.5), refint.StrV("arg"), refint.StrV(""), refint.BoolV(true), refint.NilV(), refint.StrV("x &amp; &lt;y&gt;"),
+		refint.IntV(5), refint.IntV(-1), refint.FloatV(1.5), refint.StrV("arg"), refint.StrV(""), refint.BoolV(true), refint.NilV(), refint.StrV("x &amp; &lt;y&gt;"), refint.StrV("it's"), refint.StrV("a \"b\""), refint.StrV("'q\"é"),
 		refint.ArrV(nil), refint.ArrV([]V{refint.IntV(1), refint.ArrV([]V{refint.StrV("in")})}),
 		refint.ObjV(map[string]V{"a": refint.IntV(1), "b": refint.ArrV([]V{refint.NilV(), refint.ObjV(map[string]V{"c": refint.FloatV(0.5)})})}), refint.ObjV(nil),
 	}).Draw(rt, "arg")
@@ -521,13 +521,13 @@ func genRegOp(rt *rapid.T) regOp {
 		return regOp{Kind: "load"}
 	}
 	recvV := c20Recv(rt, typ)
-	markup := recvV.K == refint.KStr && strings.ContainsAny(recvV.S, "&<>'\"\\")
+	markup := recvV.K == refint.KStr && strings.ContainsAny(recvV.S, "&<>\\")
 	recv := toModelJSON(recvV)
 	n := rapid.IntRange(0, 3).Draw(rt, "nArgs")
 	args := make([]modelJSON, n)
 	for i := range args {
 		av := c20Arg(rt)
-		markup = markup || av.K == refint.KStr && strings.ContainsAny(av.S, "&<>'\"\\")
+		markup = markup || av.K == refint.KStr && strings.ContainsAny(av.S, "&<>\\")
 		args[i] = toModelJSON(av)
 	}
 	op := regOp{Kind: "call", Name: name, Recv: &recv, Args: args, ViaVar: rapid.Bool().Draw(rt, "viaVar"), ViaTpl: rapid.IntRange(0, 2).Draw(rt, "viaTpl") == 0,
